@@ -72,3 +72,85 @@ def C16(tier, seed):
             "not against a TLA+ transcription (TLC integers are 32-bit)",
             "hook datasketches::verif::{murmur3_x64_128,xxhash64} calls the same Hasher::write/finish the sketches use"],
            hits)
+
+
+# --------------------------------------------------------------------------- HLL family
+HLL_CONSTS = "CONSTANTS ListCap = 8  InitSetLg = 5  SetLgOff = 3  AuxToken = 15  MaxVal = 63\n"
+
+
+def trace_cfg(pid, family, consts, check):
+    """Write the trace-validation config for one property: same specification, the
+    conjuncts of the selected properties switched on."""
+    path = work(pid, "Trace_%s_%s.cfg" % (family, pid))
+    with open(path, "w") as f:
+        f.write(consts)
+        f.write("          Check = {%s}\n" % ", ".join('"%s"' % c for c in check))
+        f.write("SPECIFICATION TSpec\nPOSTCONDITION Accepted\nCHECK_DEADLOCK FALSE\n")
+    return path
+
+
+def gen_many(pid, module, cfgs, outname):
+    """Run several generator instances and concatenate their behaviours."""
+    out = work(pid, outname)
+    gens = []
+    with open(out, "w") as o:
+        for c in cfgs:
+            part = work(pid, outname + "." + c)
+            gens.append(tlc_gen(module, c, part))
+            o.write(open(part).read())
+    return out, gens
+
+
+def hll_like(pid, tier, seed, check, record_cmd, mcs, gens, module="Trace_Hll", extra_args=None,
+             assumptions=None, rule=""):
+    t0 = time.time()
+    clean(pid)
+    thorough = tier == "thorough"
+    vhbin = build_harness()
+    mc = [tlc_mc(m, c, workers=6) for (m, c) in mcs]
+    args = {"out": work(pid, "tr"), "seed": seed, "tier": tier}
+    gen = []
+    if gens:
+        beh, gen = gen_many(pid, gens[0], gens[1], "behaviours.json")
+        args["in"] = beh
+    shards = 14 if thorough else 12
+    args["shards"] = shards
+    if extra_args:
+        args.update(extra_args)
+    rec = vh(vhbin, record_cmd, args)
+    paths = [work(pid, "tr.%d.ndjson" % i) for i in range(shards)]
+    cfg = trace_cfg(pid, "Hll", HLL_CONSTS, check)
+    ev, rej, st = validate_shards(module, cfg, paths, jobs=shards)
+    viol, hits = classify(pid, rej, module, cfg)
+    cov = {"states": sum(m["states"] for m in mc) + sum(g["states"] for g in gen) + st,
+           "transitions": sum(m["transitions"] for m in mc) + sum(g["transitions"] for g in gen) + ev,
+           "traces_validated_against_impl": rec["runs"] - len(rej),
+           "trace_events_validated": ev,
+           "mc_instances": mc, "generators": gen,
+           "behaviours_replayed_into_impl": sum(g["behaviours"] for g in gen),
+           "samples": sample_events(paths, n=2, maxlen=6),
+           "exhaustive": False, "rule": rule}
+    finish(pid, tier, seed, "model_checking", cov, t0, viol, assumptions or [], hits)
+
+
+def C02(tier, seed):
+    hll_like("C02", tier, seed, ["C02"], "hll-record",
+             [("MC_Hll", "MC_Hll_A.cfg"), ("MC_Hll", "MC_Hll_B.cfg")],
+             ("Gen_Hll", ["Gen_Hll_4.cfg", "Gen_Hll_4b.cfg", "Gen_Hll_7.cfg", "Gen_Hll_8.cfg", "Gen_Hll_10.cfg"]),
+             assumptions=["coupons of public update() calls are derived by harness/src/refhash.rs; state is read through the add-only hook HllSketch::verif_state()",
+                          "estimates are compared as IEEE bit patterns across the Hll4/Hll6/Hll8 triplet, never predicted"],
+             rule="MC: toy instances exhaustive (all orders/multiplicities over the alphabet, lock-step Hll4/6/8, round trips); "
+                  "Gen: one TLC behaviour per distinct implementation-shaped state at real constants from scripted deep prefixes; "
+                  "Trace: random public-API streams lg_k 4..12 x 3 types observed after every update, crafted coupon scripts "
+                  "(exceptions, cur_min shifts with live aux map, probe collisions, promotions), full state at every representation change")
+
+
+def C03(tier, seed):
+    mc = ("MC_HllUnion", "MC_HllUnion_thorough.cfg" if tier == "thorough" else "MC_HllUnion.cfg")
+    hll_like("C03", tier, seed, ["C03"], "hllu-record", [mc], None,
+             assumptions=["input sketches are built through HllSketch::verif_update_with_coupon / update; gadget state is read through HllUnion::verif_gadget()",
+                          "estimates/bounds of to_sketch(Hll4|Hll6|Hll8) and of the union itself are compared as IEEE bit patterns"],
+             rule="MC: toy union over a 9-shape catalogue (+ harvested out-of-order results and their round trips), all sequences of "
+                  "feed/update_value/reset/to_sketch; Trace: random union histories over catalogues of empty/list/set/array inputs x "
+                  "Hll4/6/8 x lg_k 4..12 x fresh/deserialized/out-of-order, lg_max_k 4,7,8,10,12, permuted orders, repetition, "
+                  "to_sketch for all three types after every step with full register comparison")
